@@ -7,6 +7,7 @@ from mcdriver import Job
 
 QUICK_WALL = 170       # seconds: scheduling of new programs stops after this
 THOROUGH_WALL = 1500
+DEEPEN_UNTIL = 1200     # thorough tiers: re-exploration with larger preemption budgets goes on until this many seconds
 ASSUME_MC = [
     'schedules are sequentially consistent interleavings of atomic operations (no weak-memory values)',
     'environment models (futex, clock, allocator, binary semaphore) are as described in DESIGN.md section 5; the futex model is compared with the real kernel by env-conformance',
@@ -43,7 +44,7 @@ def generic(prop, tier, jobs, note, sample_every=25, level='model_checking', ext
     res, skipped = mcdriver.run_jobs(jobs, wall(tier), per_job_cap_s=(100 if tier == 'quick' else 600), sample_every=sample_every)
     rounds = None
     if tier == 'thorough' and not skipped and deepen:
-        bonus, rounds = mcdriver.deepen(res, t0 + wall(tier), {j.key() for j in jobs})
+        bonus, rounds = mcdriver.deepen(res, t0 + DEEPEN_UNTIL, {j.key() for j in jobs})
         res = res + bonus
     return mcdriver.finish(prop, tier, level, res, skipped, t0, assumptions=ASSUME_MC, technique_note=note, extra_cov=extra_cov, deepening=rounds)
 
@@ -102,7 +103,7 @@ def run_C02(tier):
     res, skipped = mcdriver.run_jobs(J, wall(tier), per_job_cap_s=(100 if tier == 'quick' else 600), sample_every=40)
     rounds = None
     if tier == 'thorough' and not skipped:
-        bonus, rounds = mcdriver.deepen(res, t0 + wall(tier), {j.key() for j in J})
+        bonus, rounds = mcdriver.deepen(res, t0 + DEEPEN_UNTIL, {j.key() for j in J})
         res = res + bonus
     return mcdriver.finish('C02', tier, 'model_checking', res, skipped, t0, assumptions=ASSUME_MC, deepening=rounds,
         technique_note='stateless-by-re-execution DFS over scheduler choices of the real mu.c/common.c/semaphore code with visited-state pruning; oracle: any terminal state with an unfinished thread is a lost wake-up/deadlock; try-locks must not block')
